@@ -1,101 +1,9 @@
 --------------------------- MODULE MinerRegistry ---------------------------
-(***************************************************************************)
-(* Miner registry and stake accounting of go-rangers (src/service/         *)
-(* miner_manager.go, refund_manager.go, src/executor/miner_executor.go):   *)
-(* reference semantics of the miner-management transactions, as the        *)
-(* property C20 demands them.                                              *)
-(*                                                                         *)
-(* A registry R is a function id -> [present, type, stake, account, abort].*)
-(* type 1 = proposer (minimum stake 2000), type 0 = validator (400).       *)
-(* Amounts are whole tokens (the code converts to 18 decimals when it      *)
-(* touches balances).                                                      *)
-(***************************************************************************)
-EXTENDS Integers, Sequences, FiniteSets, TLC
+(* MinerRegistryCore (reference semantics of the miner-management transactions; kept free of
+   recursive operators so that TLAPS can read it, see MinerRegistryProof) plus the election totals. *)
+EXTENDS MinerRegistryCore
 
-MinStake(type) == IF type = 1 THEN 2000 ELSE 400
-NoAccount == 0
-Absent == [present |-> FALSE, type |-> 0, stake |-> 0, account |-> NoAccount, abort |-> FALSE]
-
-Occupied(R, a) == \E i \in DOMAIN R : R[i].present /\ R[i].account = a
-OwnerOf(R, a) == IF Occupied(R, a) THEN CHOOSE i \in DOMAIN R : R[i].present /\ R[i].account = a ELSE 0
-
-(* a transaction: [kind, id, type, stake, account, source]; stake is the applied / added /
-   refunded amount; stake = -1 in a refund means "everything" (MaxUint64 on the wire) *)
-
-(* --- guards: is the transaction accepted? bal = liquid whole tokens of the source (floor) --- *)
-(* Rv is the registry the by-account index reflects.  The property demands Rv = R.  As coded,
-   GetMinerIdByAccount iterates the miner records of the storage trie as of the start of the block
-   (a miner created by an earlier transaction of the same block is not among them) and reads each
-   record's account live: Rv = current records of the miners that existed at block start.  The reference (Accepts) and the as-coded variant (AcceptsV) differ only there. *)
-ApplyOkV(R, Rv, tx, bal) ==
-  /\ tx.type \in {0, 1}
-  /\ tx.stake >= MinStake(tx.type)
-  /\ bal >= tx.stake
-  /\ ~R[tx.id].present
-  /\ ~Occupied(Rv, tx.account)
-ApplyOk(R, tx, bal) == ApplyOkV(R, R, tx, bal)
-
-AddOk(R, tx, bal) == tx.stake = 0 \/ (bal >= tx.stake /\ R[tx.id].present)
-
-RefundAmount(R, tx) == IF tx.stake = -1 THEN R[tx.id].stake ELSE tx.stake
-RefundOk(R, tx) ==
-  /\ R[tx.id].present
-  /\ R[tx.id].account = tx.source
-  /\ R[tx.id].stake >= RefundAmount(R, tx)
-
-ChangeOkV(R, Rv, tx) ==
-  /\ R[tx.id].present
-  /\ R[tx.id].account # tx.account
-  /\ R[tx.id].account = tx.source
-  /\ ~Occupied(Rv, tx.account)
-ChangeOk(R, tx) == ChangeOkV(R, R, tx)
-
-Accepts(R, tx, bal) ==
-  CASE tx.kind = "Apply"  -> ApplyOk(R, tx, bal)
-    [] tx.kind = "Add"    -> AddOk(R, tx, bal)
-    [] tx.kind = "Refund" -> RefundOk(R, tx)
-    [] tx.kind = "Change" -> ChangeOk(R, tx)
-
-AcceptsV(R, Rv, tx, bal) ==
-  CASE tx.kind = "Apply"  -> ApplyOkV(R, Rv, tx, bal)
-    [] tx.kind = "Add"    -> AddOk(R, tx, bal)
-    [] tx.kind = "Refund" -> RefundOk(R, tx)
-    [] tx.kind = "Change" -> ChangeOkV(R, Rv, tx)
-
-(* --- effects on the registry --- *)
-ApplyPost(R, tx) ==
-  [R EXCEPT ![tx.id] = [present |-> TRUE, type |-> tx.type, stake |-> tx.stake, account |-> tx.account, abort |-> FALSE]]
-
-AddPost(R, tx) ==
-  IF tx.stake = 0 THEN R
-  ELSE LET ns == R[tx.id].stake + tx.stake IN
-       [R EXCEPT ![tx.id].stake = ns,
-                 ![tx.id].abort = IF ns > MinStake(R[tx.id].type) THEN FALSE ELSE R[tx.id].abort]
-
-RefundPost(R, tx) ==
-  LET left == R[tx.id].stake - RefundAmount(R, tx) IN
-  IF left >= MinStake(R[tx.id].type) THEN [R EXCEPT ![tx.id].stake = left]
-  ELSE IF left = 0 THEN [R EXCEPT ![tx.id] = Absent]
-  ELSE [R EXCEPT ![tx.id].stake = left, ![tx.id].abort = TRUE]
-
-ChangePost(R, tx) == [R EXCEPT ![tx.id].account = tx.account]
-
-Post(R, tx) ==
-  CASE tx.kind = "Apply"  -> ApplyPost(R, tx)
-    [] tx.kind = "Add"    -> AddPost(R, tx)
-    [] tx.kind = "Refund" -> RefundPost(R, tx)
-    [] tx.kind = "Change" -> ChangePost(R, tx)
-
-(* tokens leaving (+) the source's liquid balance / entering escrow for the account *)
-Locked(R, tx) == CASE tx.kind = "Apply" -> tx.stake [] tx.kind = "Add" -> tx.stake [] OTHER -> 0
-Escrowed(R, tx) == IF tx.kind = "Refund" THEN RefundAmount(R, tx) ELSE 0
-
-(* --- the property on a registry --- *)
-OneMinerPerAccount(R) ==
-  \A i, j \in DOMAIN R : (i # j /\ R[i].present /\ R[j].present) => R[i].account # R[j].account
-TotalStake(R, type) ==
-  LET S == {i \in DOMAIN R : R[i].present /\ R[i].type = type /\ ~R[i].abort}
-      RECURSIVE Sum(_)
-      Sum(X) == IF X = {} THEN 0 ELSE LET x == CHOOSE y \in X : TRUE IN R[x].stake + Sum(X \ {x})
-  IN Sum(S)
+RECURSIVE SumStake(_, _)
+SumStake(R, X) == IF X = {} THEN 0 ELSE LET x == CHOOSE y \in X : TRUE IN R[x].stake + SumStake(R, X \ {x})
+TotalStake(R, type) == SumStake(R, {i \in DOMAIN R : R[i].present /\ R[i].type = type /\ ~R[i].abort})
 =============================================================================
